@@ -391,3 +391,38 @@ func (c *Ctx) kindSetAt(b *ssa.BasicBlock, subject string, skip func(DomFact) bo
 	}
 	return out, true
 }
+
+// constFormats: every printf-style call in the functions declared in the given files passes a constant
+// format string (user-controlled text used as a format is re-interpreted: `%` sequences are mangled).
+func (c *Ctx) constFormats(r *Report, rule string, files ...string) int {
+	idx := map[string]int{"fmt.Fprintf": 1, "fmt.Sprintf": 0, "fmt.Errorf": 0, "fmt.Printf": 0, "newErrorf": 1}
+	n := 0
+	for _, fn := range c.Funcs {
+		p := c.pos(fn.Pos())
+		in := false
+		for _, f := range files {
+			if strings.HasPrefix(p, f+":") {
+				in = true
+			}
+		}
+		if !in {
+			continue
+		}
+		for _, b := range fn.Blocks {
+			for _, x := range b.Instrs {
+				ci, ok := x.(ssa.CallInstruction)
+				if !ok {
+					continue
+				}
+				i, ok := idx[c.calleeName(ci.Common())]
+				if !ok || i >= len(ci.Common().Args) {
+					continue
+				}
+				n++
+				_, isConst := ci.Common().Args[i].(*ssa.Const)
+				r.Check(isConst, rule, c.fname(fn), "format string of "+c.calleeName(ci.Common())+" is a constant", c.ipos(x), "constant format", "the format is "+trunc(c.term(ci.Common().Args[i]), 100)+": text taken from values or declarations is interpreted as a format, so any `%` in it is mangled")
+			}
+		}
+	}
+	return n
+}
